@@ -278,6 +278,7 @@ def _same_modulo_order(a, b, exp):
 # ------------------------------------------------------------------------------------------------
 ORIGINALS = {}
 RECEIVED = {}
+ONEWAY_EVENTS = {}
 _live = {}
 
 
@@ -289,6 +290,14 @@ def _echo_class():
         def echo(self, token, /, *args, **kwargs):
             RECEIVED[token] = (args, kwargs)
             return ORIGINALS[token]
+
+        @api.oneway
+        def note(self, token, /, *args, **kwargs):
+            # a fire-and-forget call takes arguments like any other call
+            RECEIVED[("oneway", token)] = (args, kwargs)
+            ev = ONEWAY_EVENTS.get(token)
+            if ev is not None:
+                ev.set()
 
         def echo_padded(self, token, n, /, *args, **kwargs):
             # a reply that is as long as the request: both directions cross the transport's chunk size
@@ -402,6 +411,23 @@ def run_l2(case):
                 viol("padding", "padding string changed")
         else:
             viol("nested-arg-mapping", "nested argument arrived as %r" % (args[1:],))
+        # the same arguments to a method flagged @oneway (nothing comes back; what the method received is looked up afterwards)
+        import threading
+        ev = ONEWAY_EVENTS[token] = threading.Event()
+        try:
+            p.note(token, v, **{kw: v})
+            if not ev.wait(20):
+                viol("oneway-not-delivered", "a @oneway method called with a positional and a keyword argument did not run within 20 s")
+            else:
+                oargs, okw = RECEIVED.pop(("oneway", token), ((), {}))
+                if list(okw.keys()) != [kw]:
+                    viol("kwarg-name", "@oneway call: keyword argument %r arrived as %r" % (kw, list(okw.keys())))
+                else:
+                    checks += [("positional argument of a oneway call", oargs[0] if oargs else "<missing>"), ("keyword argument of a oneway call", okw[kw])]
+        except Exception as x:
+            viol("call-raises", "@oneway call raised %r" % (x,))
+        finally:
+            ONEWAY_EVENTS.pop(token, None)
         # batch result and batch argument
         b = api.BatchProxy(p)
         b.echo(token, v)
